@@ -131,6 +131,7 @@ struct Known {
     status: String,
     property: String,
     all_of: Vec<String>,
+    regex: Option<regex::Regex>,
     what: String,
 }
 
@@ -149,6 +150,7 @@ fn load_known() -> Vec<Known> {
                 .as_array()
                 .map(|a| a.iter().filter_map(|s| s.as_str().map(String::from)).collect())
                 .unwrap_or_default(),
+            regex: e["match_regex"].as_str().map(|r| regex::Regex::new(r).unwrap_or_else(|x| machinery(&format!("known_findings.json: bad regex: {x}")))),
             what: e["what"].as_str().unwrap_or("").to_string(),
         });
     }
@@ -206,7 +208,11 @@ impl Report {
         let mut known_hits: BTreeMap<String, u64> = BTreeMap::new();
         for v in &self.tally.violations {
             let m = known.iter().find(|k| {
-                k.status == "known" && k.property == self.prop && !k.all_of.is_empty() && k.all_of.iter().all(|s| v.key.contains(s.as_str()))
+                k.status == "known"
+                    && k.property == self.prop
+                    && (!k.all_of.is_empty() || k.regex.is_some())
+                    && k.all_of.iter().all(|s| v.key.contains(s.as_str()))
+                    && k.regex.as_ref().map(|r| r.is_match(&v.key)).unwrap_or(true)
             });
             match m {
                 Some(k) => *known_hits.entry(k.what.clone()).or_insert(0) += 1,
